@@ -214,9 +214,14 @@ def _greedy_tape(rng, start, stop, fs, fe, eps, tol, nmax):
         cands += [rng.choice([-1.0, 1.0]) * rng.choice(base) * 2.0 ** rng.uniform(-30, 30) for _ in range(8)]
         cands = [y for y in cands if y == y and 2.0 ** -520 < abs(y) < 1e150]
         best, best_score = None, None
+        if x != x:              # NaN abscissa (overflow in the interpolation): the tape generator stops here
+            break
         for y in cands:
             r2 = copy.copy(rf)
-            r2.provide_ordinate(x, y)
+            try:
+                r2.provide_ordinate(x, y)
+            except AssertionError:
+                continue
             w = abs(r2.b - r2.a)
             try:
                 r2.get_next_abscissa()
@@ -226,7 +231,10 @@ def _greedy_tape(rng, start, stop, fs, fe, eps, tol, nmax):
             if best_score is None or score > best_score:
                 best, best_score = y, score
         y = best if best is not None else (rng.choice(cands) if cands else 1.0)
-        rf.provide_ordinate(x, y)
+        try:
+            rf.provide_ordinate(x, y)
+        except AssertionError:
+            break
         tape.append(y)
     return tape or [1.0]
 
